@@ -90,6 +90,40 @@ func c02(c *ctx) {
 			}
 		}
 	}
+	// offsets up to the largest int (a long-lived stream's running offset): byte i still gets
+	// key[(offset+i) mod 4], with offset+i taken in the integers - no wrap-around.  The judge is given
+	// the residue (offset mod 4) + 4, which names the same mask positions without exceeding TLC's ints.
+	maxInt := int(^uint(0) >> 1)
+	for oi, off := range []int{maxInt, maxInt - 1, maxInt - 2, maxInt - 3, maxInt - 4, maxInt - 7, maxInt - 16, 1 << 62, 1<<62 + 1, 1<<62 + 3, 1<<32 + 2, 1 << 32, 1<<31 - 1, 1 << 31, 1<<31 + 1} {
+		for ln := 0; ln <= 40; ln++ {
+			key := fmt.Sprintf("hugeoff/%d/%d", oi, ln)
+			if !vh.Only(key) {
+				continue
+			}
+			k := keys[(ln+oi)%len(keys)]
+			p := alignedSlice(ln, (ln+oi)%8)
+			rng.Read(p)
+			orig := append([]byte(nil), p...)
+			res, twice := []byte{}, []byte{}
+			func() {
+				defer func() {
+					if pn := recover(); pn != nil {
+						res, twice = []byte{}, []byte{} // (a panic: the record then shows no output at all)
+						if ln == 0 {
+							res = []byte{0xff}
+						}
+					}
+				}()
+				ws.Cipher(p, k, off)
+				res = append([]byte(nil), p...)
+				ws.Cipher(p, k, off)
+				twice = append([]byte(nil), p...)
+			}()
+			emit(map[string]interface{}{"k": "cipher", "key": key, "p": vh.Ints(orig), "key4": vh.Ints(k[:]), "off": off%4 + 4,
+				"out": vh.Ints(res), "twice": vh.Ints(twice), "cuts": []int{}})
+			shapes.Add("hugeoff/%d/%d", oi, ln)
+		}
+	}
 	// long payloads (beyond any block / page size of an unrolled loop) at every offset residue
 	longLens := []int{255, 256, 257, 1000, 1023, 1024, 1025, 1043, 2047, 2048, 2100, 4095, 4096, 4111}
 	if c.thorough {
@@ -248,6 +282,15 @@ func c02(c *ctx) {
 			}
 			cr := wsutil.NewCipherReader(bytes.NewReader([]byte{1, 2, 3, 4, 5, 6, 7}), old)
 			io.ReadFull(cr, make([]byte, 1+(i/8)%5))
+			switch (i / 4) % 4 {
+			case 1: // the earlier source failed, after or together with its last bytes
+				cr.Reset(&vh.ChunkReader{Data: []byte{1, 2, 3}, End: vh.ErrInjected, DataErr: i%16 < 8}, old)
+				io.ReadAll(cr)
+				cr.Read(make([]byte, 4))
+			case 2: // the earlier source was read to its end and beyond
+				io.ReadAll(cr)
+				cr.Read(make([]byte, 4))
+			}
 			cr.Reset(bytes.NewReader(append([]byte(nil), p...)), k)
 			got, _ := io.ReadAll(cr)
 			emit(map[string]interface{}{"k": "stream", "key": key, "who": "CipherReader.Reset", "p": vh.Ints(p), "key4": vh.Ints(k[:]),
@@ -255,6 +298,11 @@ func c02(c *ctx) {
 			var db bytes.Buffer
 			cw := wsutil.NewCipherWriter(io.Discard, oldw)
 			cw.Write(make([]byte, 1+(i/8)%5))
+			if (i/4)%4 == 1 { // the earlier destination failed
+				cw.Reset(&vh.Dest{FailAt: 1, Partial: i % 3}, oldw)
+				cw.Write(make([]byte, 5))
+				cw.Write(make([]byte, 2))
+			}
 			cw.Reset(&db, k)
 			cw.Write(p)
 			emit(map[string]interface{}{"k": "stream", "key": key + "w", "who": "CipherWriter.Reset", "p": vh.Ints(p), "key4": vh.Ints(k[:]),
